@@ -852,6 +852,9 @@ pub mod validators {
 verif_from_utf8_lossy(
 //@edit rule=E13 find=<<String::from_utf8(>> count=all optional=1
 verif_from_utf8_strict(
+//@edit rule=ghost before=<<serde_json::to_writer_pretty(std::io::stdout()>>
+        // C11 "`list` prints ... ONE JSON object on stdout": this is the only write to stdout in `main` (the anchor must
+        // occur exactly once; a second write makes the proof not applicable and hands over to the bounded harness M1)
 //@edit rule=E13 find=<<validators::DETECTOR_FACTORIES>> count=all optional=1
 validators::verif_detector_factories()
 //@end
